@@ -369,6 +369,14 @@ func lowerFont(i int, f FontSpec, l Layout) []symObj {
 		out = append(out, symObj{id, tt("WinAnsiEncoding")})
 	case "ttmac":
 		out = append(out, symObj{id, tt("MacRomanEncoding")})
+	case "ttembed":
+		// TrueType with an embedded font program (/FontFile2, Table 126) and WinAnsiEncoding
+		d := tt("WinAnsiEncoding")
+		font := MinimalTTF(96)
+		fd := out[len(out)-1].Obj.(Dict)
+		out[len(out)-1].Obj = fd.with("FontFile2", Ref(fmt.Sprintf("fontfile:%d", i)))
+		out = append(out, symObj{fmt.Sprintf("fontfile:%d", i), &Stream{D: Dict{{"Length1", Int(len(font))}}, Data: font}})
+		out = append(out, symObj{id, d})
 	case "tu1":
 		var d Dict
 		if i%2 == 0 {
